@@ -397,11 +397,33 @@ impl<'dbg> FatDieRef<'dbg, Function> {
     }
 
     pub fn prolog_end_place(&self) -> Result<PlaceDescriptor<'_>, Error> {
-        let mut place = self.prolog_start_place()?;
+        // Next line row of this function. Rows are ordered by address over the whole unit, so
+        // the walk must stop at the end of the function; an end_sequence row of the previous
+        // function may share the address of a row of this one and is skipped.
+        fn next_in_function<'a>(
+            place: &PlaceDescriptor<'a>,
+            ranges: &[Range],
+        ) -> Option<PlaceDescriptor<'a>> {
+            let mut next = place.next()?;
+            while next.end_sequence && next.address.in_ranges(ranges) {
+                next = next.next()?;
+            }
+            (!next.end_sequence && next.address.in_ranges(ranges)).then_some(next)
+        }
+
+        let start_place = self.prolog_start_place()?;
+        let ranges = self.ranges();
+
+        let mut place = start_place.clone();
         while !place.prolog_end {
-            match place.next() {
-                None => break,
+            match next_in_function(&place, &ranges) {
                 Some(next_place) => place = next_place,
+                None => {
+                    // The compiler did not mark the end of the prologue (gcc never does):
+                    // take the second line row of the function, like the "second line" heuristic
+                    // of other debuggers, or the function start if it has a single row.
+                    return Ok(next_in_function(&start_place, &ranges).unwrap_or(start_place));
+                }
             }
         }
 
